@@ -166,6 +166,49 @@ func c07BufferDirect(k *fw.K, i int) {
 			return
 		}
 	}
+	// the same object authenticates again (a caller's retry after a card error, or a second
+	// round): "the caller-supplied value if WithChallenge was called" holds for every
+	// DoActiveAuth of that object, so the chip must see the supplied challenge again and the
+	// evidence of that run must record it
+	for round := 2; round <= 3; round++ {
+		k.AddEvals(1)
+		label := fmt.Sprintf("repeat-%d", round)
+		failFirst := round == 2 && i%2 == 1
+		if failFirst {
+			// the card answers the next INTERNAL AUTHENTICATE with 6F00 once (transient card
+			// error); the run after it is the caller's retry
+			card.AA.FailNext = 1
+			label += ":after-card-error"
+			res, err := aa.DoActiveAuth()
+			if err == nil && res != nil && res.Success {
+				k.Violation("aa:accepts:card-error-6f00", "DoActiveAuth reports success although the chip answered 6F00", map[string]any{"key": key.desc})
+				return
+			}
+		}
+		seenBefore := len(card.AA.Challenges)
+		res, err := aa.DoActiveAuth()
+		det := map[string]any{"key": key.desc, "route": "activeauth.WithChallenge", "buffer": mode, "object": label, "supplied_challenge": fmt.Sprintf("%x", want), "chip_saw": fmt.Sprintf("%x", card.AA.Challenges), "err": fmt.Sprint(err)}
+		all := card.AA.Challenges
+		if len(all) != seenBefore+1 {
+			k.Violation("aa:wire-challenge-shape:"+label, "a repeated DoActiveAuth did not send exactly one challenge", det)
+			return
+		}
+		for _, c := range all {
+			if !bytesEq(c, want) {
+				k.Violation("aa:supplied-challenge-not-transmitted:"+label, fmt.Sprintf("the chip received %x in a later run of the same object, the caller supplied %x", c, want), det)
+				return
+			}
+		}
+		if err != nil || res == nil || !res.Success {
+			k.Violation("aa:live-genuine-failed:"+label, fmt.Sprintf("a repeated DoActiveAuth against the chip holding the DG15 key failed: %v", err), det)
+			return
+		}
+		if res.Evidence == nil || !bytesEq(res.Evidence.Nonce, want) {
+			k.Violation("aa:supplied-challenge-not-recorded:"+label, fmt.Sprintf("the evidence of a later run records another nonce than the supplied challenge %x", want), det)
+			return
+		}
+		k.Count("challenge_repeat_ok")
+	}
 	k.Count("challenge_buffer_ok")
 }
 
